@@ -602,6 +602,17 @@ func (ro *RedisOutput) parseAofReplayUnits(replayQuit usync.WaitCloser, reader *
 			continue
 		}
 
+		if !bypass && inTxn && len(txnCommands) == 0 {
+			// the leading marker decides whether this transaction is one the tool wrote itself: it has
+			// to reach that decision even when the configured key filter does not let the reserved
+			// namespace through, or the mirrored transaction is taken for a foreign one and sent back
+			if marker := makeCmd(sCmd, argv, endOffset); isBisyncMarkerCommand(marker) {
+				txnCommands = append(txnCommands, marker)
+				prevOffset = endOffset
+				continue
+			}
+		}
+
 		newArgv, reject := ro.outFilter.FilterCmdKey(sCmd, argv)
 		if bypass || reject {
 			ro.filterCounterAdd(1)
